@@ -1351,7 +1351,8 @@ async def do_sum(
             return x
 
     async for item in auto_aiter(iterable):
-        rv += func(item)
+        # Not "+=": like the builtin sum, never extend a mutable start in place.
+        rv = rv + func(item)
 
     return rv
 
